@@ -35,6 +35,42 @@ class Skip(flow.Operator):
         return left.extend(flow.Segment(fan, ea), flow.Segment(ft, et))
 
 
+class Api(flow.Operator):
+    """The same operator spec written against the public composition API (flow.Worker / fork / train / Trunk.extend)
+    instead of the wrap decorators: it extends ONLY the segments it has an actor for and, when asked, hangs a stateless
+    monitoring sink (a tap, never published further) off the publisher of each segment it leaves alone."""
+
+    def __init__(self, spec, cls):
+        self._spec, self._cls = spec, cls
+
+    def compose(self, scope):
+        left = scope.expand()
+        spec, groups = self._spec, {}
+
+        def build(key, actor):
+            worker = groups.setdefault(
+                key, flow.Worker(self._cls(actor).builder(actor[0], hp=actor[1]), 1, 1)
+            ).fork()
+            if worker.stateful and not worker.derived:
+                worker.fork().train(left.train.publisher, label_publisher)
+            return worker
+
+        parts = {}
+        label_publisher = left.label.publisher
+        if spec.get('label'):
+            parts['label'] = build('label', spec['label'])
+            label_publisher = parts['label'][0]
+        if spec.get('apply'):
+            parts['apply'] = build('apply', spec['apply'])
+        if spec.get('train'):
+            parts['train'] = build('apply', spec['apply']) if spec['train'] == 'same' else build('train', spec['train'])
+        for name in spec.get('taps') or ():
+            if name not in parts:
+                sink = flow.Worker(flowsym.Stateless.builder(f'tap-{name}'), 1, 1)
+                sink[0].subscribe(getattr(left, name).publisher)
+        return left.extend(**parts)
+
+
 SNAPSHOT = False   # stateful actors restore their hyper-parameter from the state (flowsym.Snapshot)
 HP_SHIFT = 0       # "the code changed": every hyper-parameter of this expansion is shifted by this much
 
@@ -50,6 +86,9 @@ def make_operator(spec):
 
     if HP_SHIFT:
         spec = {k: ([v[0], v[1] + HP_SHIFT, v[2]] if isinstance(v, list) else v) for k, v in spec.items()}
+
+    if spec.get('api'):
+        return Api(spec, cls)
 
     op = None
     if spec.get('apply') and spec.get('train') == 'same':
